@@ -79,13 +79,17 @@ def run(chk):
                     continue
                 cases.append(dict(family=fam, sign=sgn, options=o))
     cases.append(dict(family="lsn", sign=1.0, options={}, wall_clockwise_test=True))
+    for sgn in (1.0, -1.0):
+        cases.append(dict(family="lsn", sign=sgn, options={}, extrapolate=True))
     rc, res, log = impl("sideeffects", dict(cases=cases), 900)
     if res is None:
         chk.tie_broken("impl/provenance.py:sideeffects", f"rc={rc}: {log}")
     else:
         for c, r in zip(cases, res):
-            key = "+".join(sorted(c["options"])) or "plain"
+            key = ("+".join(sorted(c["options"])) or "plain") + (":extrapolate_profiles" if c.get("extrapolate") else "")
             n += 3
+            if r.get("settings_changed"):
+                chk.fail("caller-settings-modified:equilibrium", "building a TokamakEquilibrium modifies the caller's settings dictionary", {"family": c["family"], "options": c["options"], "keys": r["settings_changed"][:10]})
             if r["changed"]:
                 chk.fail(f"caller-arrays-modified:{key}", "building a TokamakEquilibrium modifies the caller's input arrays", {"family": c["family"], "sign": c["sign"], "options": c["options"], "max_change": r["changed"]})
             if r.get("wall_changed"):
@@ -179,6 +183,11 @@ def run(chk):
         with open(path, "rb") as f:
             H = pickle.load(f)
         seq = ["W: lsn non-orthogonal, spacing lengths left to their defaults", "X: lsn", "Y: cdn (psi reversed)", "Z: lsn with reverse_current", "X", "W"]
+        for i, h in enumerate(H):
+            if h.get("__settings_dict_changed__"):
+                chk.fail("caller-settings-modified:mesh", "building a BoutMesh modifies the settings dictionary it was given (a later build from the same dictionary then sees options the caller never set)",
+                         {"build": seq[i], "keys_added_or_changed": h["__settings_dict_changed__"][:12], "number": len(h["__settings_dict_changed__"])})
+                break
         for (i0, i1, nm) in ((1, 4, "X"), (0, 5, "W")):
             o0, o1 = H[i0].get("__options__", {}), H[i1].get("__options__", {})
             od = {k: (o0.get(k), o1.get(k)) for k in sorted(set(o0) | set(o1)) if o0.get(k) != o1.get(k)}
@@ -187,7 +196,7 @@ def run(chk):
                 chk.fail("history-dependence:evaluated-options", "the evaluated option set of the same build differs when it is repeated in one interpreter after other builds",
                          {"sequence": seq, "build": nm, "options_first_vs_repeated": dict(list(od.items())[:8]), "number_differing": len(od)})
             for k, v in H[i0].items():
-                if k == "__options__":
+                if k.startswith("__"):
                     continue
                 bad = False
                 for loc, a in v.items():
